@@ -317,6 +317,42 @@ def use_task(task):
     return out
 
 
+def validate_nets(run, nets, bounds, name="made_nets"):
+    """TraceMade.tla on logged networks; returns the number accepted, the others are drift (a network
+    that breaks the property itself is reported by the caller from its measured pattern)."""
+    if not nets:
+        return 0
+    path = os.path.join(T.scratch(), name + ".json")
+    with open(path, "w") as f:
+        json.dump({"nets": [{"cfg": n["cfg"], "layers": n["layers"], "deps": n["deps"]} for n in nets]}, f)
+    cfgt = "SPECIFICATION TSpec\nINVARIANT TAutoregressive\nCONSTANTS MaxD = %d MaxH = %d MaxBlocks = 2 MaxMult = 3\n" % (bounds["MaxD"], bounds["MaxH"])
+    cfgt = cfgt.replace("MaxBlocks = 2 MaxMult = 3", "MaxBlocks = %d MaxMult = %d" % (bounds.get("MaxBlocks", 2), bounds.get("MaxMult", 3)))
+    tres = T.run_tlc("TraceMade", cfgt, workers=1, coverage=False, dump=True, env_extra={"TRACE_FILE": path}, name="trace_made", timeout=3000)
+    if not tres.ok:
+        raise T.MachineryError("TraceMade: %s\n%s" % (tres.violated, tres.stdout[-1500:]))
+    run.states += tres.distinct
+    run.transitions += tres.generated
+    best = {}
+    with open(tres.dump) as f:
+        for blk in f.read().split("\n\n"):
+            m1 = re.search(r"/\\ tid = (\d+)", blk)
+            if not m1:
+                continue
+            tid = int(m1.group(1))
+            l = int(re.search(r"/\\ l = (\d+)", blk).group(1))
+            v = re.search(r'/\\ verdict = "(\w+)"', blk).group(1)
+            if tid not in best or l > best[tid][0] or v != "ok":
+                best[tid] = (l, v)
+    accepted = 0
+    for i, n in enumerate(nets):
+        l, v = best.get(i + 1, (0, "missing"))
+        if v == "ok" and l == len(n["layers"]) + 2:
+            accepted += 1
+        else:
+            run.note_drift("network %s %s (seed %s) is not a behaviour of Made.tla: verdict %s at layer %d: %s" % (n["copy"], n["cfg"], n["seed"], v, l, [la["degs"] for la in n["layers"]]))
+    return accepted
+
+
 def to_py(v):
     if isinstance(v, dict):
         return {str(k): to_py(x) for k, x in v.items()}
@@ -444,34 +480,34 @@ def main(run, replay=None):
             if "rejected" in n:
                 run.note_drift("constructor rejected %s %s: %s" % (n["copy"], n["cfg"], n["rejected"]))
     run.evaluations += len(nets)
-    path = os.path.join(T.scratch(), "made_nets.json")
-    with open(path, "w") as f:
-        json.dump({"nets": [{"cfg": n["cfg"], "layers": n["layers"], "deps": n["deps"]} for n in nets]}, f)
-    cfgt = "SPECIFICATION TSpec\nINVARIANT TAutoregressive\nCONSTANTS MaxD = %d MaxH = %d MaxBlocks = 2 MaxMult = 3\n" % (bounds["MaxD"], bounds["MaxH"])
-    tres = T.run_tlc("TraceMade", cfgt, workers=1, coverage=False, dump=True, env_extra={"TRACE_FILE": path}, name="trace_made", timeout=3000)
-    if not tres.ok:
-        raise T.MachineryError("TraceMade: %s\n%s" % (tres.violated, tres.stdout[-1500:]))
-    run.states += tres.distinct
-    run.transitions += tres.generated
-    best = {}
-    with open(tres.dump) as f:
-        for blk in f.read().split("\n\n"):
-            m1 = re.search(r"/\\ tid = (\d+)", blk)
-            if not m1:
-                continue
-            tid = int(m1.group(1))
-            l = int(re.search(r"/\\ l = (\d+)", blk).group(1))
-            v = re.search(r'/\\ verdict = "(\w+)"', blk).group(1)
-            if tid not in best or l > best[tid][0] or v != "ok":
-                best[tid] = (l, v)
-    accepted = 0
-    for i, n in enumerate(nets):
-        l, v = best.get(i + 1, (0, "missing"))
-        if v == "ok" and l == len(n["layers"]) + 2:
-            accepted += 1
-        else:
-            run.note_drift("network %s %s (seed %s) is not a behaviour of Made.tla: verdict %s at layer %d: %s" % (n["copy"], n["cfg"], n["seed"], v, l, [la["degs"] for la in n["layers"]]))
-    run.traces = accepted
+    accepted = validate_nets(run, nets, bounds)
+    # (T) on networks nobody here configured: every MADE the repository's own test-suite constructs
+    from vcore import suite
+
+    sd = suite.run_suite("made")
+    snets, seen_nets = [], set()
+    for n in sd["made"]:
+        m = n["cfg"]["m"]
+        if n["deps"] is None:
+            # batch norm / dropout: not measurable exactly; the pattern implied by the logged masks
+            continue
+        bad = [(o, [j + 1 for j, v in enumerate(row) if v and j >= o // m]) for o, row in enumerate(n["deps"])]
+        bad = [b for b in bad if b[1]]
+        if bad:
+            fails.append({"copy": n["copy"], "cfg": n["cfg"], "draws": None, "ctx": n.get("ctx"), "clause": "suite_network", "test": n["test"], "detail": "network built by %s: output unit %d depends on inputs %s" % (n["test"], bad[0][0], bad[0][1])})
+        n["seed"] = n["test"]
+        # TLC replays the construction layer by layer: the largest networks only in the thorough tier,
+        # identical constructions once
+        sig = json.dumps([n["cfg"], n["layers"]], sort_keys=True)
+        if sig in seen_nets or (not thorough and n["cfg"]["D"] * n["cfg"]["H"] > 1000):
+            continue
+        seen_nets.add(sig)
+        snets.append(n)
+    sb = {"MaxD": max([n["cfg"]["D"] for n in snets] + [1]), "MaxH": max([n["cfg"]["H"] for n in snets] + [1]), "MaxBlocks": max([n["cfg"]["B"] for n in snets] + [2]), "MaxMult": max([n["cfg"]["m"] for n in snets] + [3])}
+    acc2 = validate_nets(run, snets, sb, name="suite_nets")
+    run.evaluations += len(snets)
+    run.extra["suite_networks"] = {"pytest": sd["pytest_tail"], "constructed": len(sd["made"]), "validated": len(snets), "accepted": acc2, "bounds": sb}
+    run.traces = accepted + acc2
     if nets:
         n0 = next((n for n in nets if n["cfg"]["rnd"] and n["cfg"]["D"] >= 3 and n["cfg"]["B"] >= 1), nets[0])
         run.sample({"real_rng_network": n0["copy"], "cfg": n0["cfg"], "degrees": [la["degs"] for la in n0["layers"]], "deps": n0["deps"]})
